@@ -36,14 +36,16 @@ Proof. exact Proofs.verify_init_sound. Qed.
       entered with (nothing for global/eval code: RunProgram and eval assume vm.sp is back at its entry
       value), no stack locals and no try frame ... *)
 Theorem done_end_shape : forall code md ch st, md <> MFunc -> step code md ch st = Done ->
-  pc st = length code /\ loc st = 0 /\ segs st = a_segs (init_state md) /\ frames st = [].
+  pc st = length code /\ cx st = aux0 /\ segs st = a_segs (init_state md) /\ frames st = [].
 Proof. exact Proofs.done_end_shape. Qed.
 
-(* ... and a function returns through ret with a result above its `this` slot (ret resets sp to the frame
-   base, so stack locals of enclosing blocks may still be there), outside any variadic region, and with no try
-   frame of its own left on the try stack *)
+(* ... and a function returns through ret with exactly its `this` slot, the stack locals of the blocks that
+   are still open (a return does not emit leaveBlock), at most one adopted operand per adopting block (catch
+   parameter / switch discriminant kept on the stack) and the result: [ret_lo = 2 + sum of open block sizes],
+   [ret_hi = ret_lo + number of open adopting blocks]; outside any variadic region; no try frame left *)
 Theorem done_func_shape : forall code ch st, step code MFunc ch st = Done ->
-  nth (pc st) code SUnknown = SRet /\ (exists n, 2 <= n /\ segs st = [mkseg n true]) /\ frames st = [].
+  nth (pc st) code SUnknown = SRet /\
+  (exists n, ret_lo (cx st) <= n <= ret_hi (cx st) /\ segs st = [mkseg n true]) /\ frames st = [].
 Proof. exact Proofs.done_func_shape. Qed.
 
 (* non-vacuity: code with try/catch/finally and a spread call is accepted and its runs finish; the shape of
